@@ -128,6 +128,22 @@ theorem scan_total (rd : Nat → Nat → Nat) (data : List Nat) :
       exact Impl.skipCtl_le _ _ hb
     · intro hno; exact absurd h1 (hno i)
 
+/-- **Every slice expression of the loop is in bounds.** With at most `keep` bytes carried over
+    (`buf[:overlap]`), the window `buf[:overlap+n]` fits the buffer, the kept part
+    `window[len(window)-keep:]` is a valid slice and again has at most `keep` bytes — for every
+    file rest and every read result. (The model's list operations are total; this is the
+    statement that the Go slices they stand for cannot panic.) -/
+theorem loop_slices_in_bounds (rest carry : List Nat) (want : Nat) (h : carry.length ≤ geom.keep) :
+    let n := Impl.readLen (geom.bufSize - carry.length) rest.length want
+    let window := carry ++ rest.take n
+    let keep := min geom.keep window.length
+    window.length ≤ geom.bufSize ∧ keep ≤ window.length ∧
+      (window.drop (window.length - keep)).length ≤ geom.keep := by
+  have h1 := Impl.readLen_le_room (geom.bufSize - carry.length) rest.length want
+  have h2 := geom_keep_lt_buf
+  simp only [List.length_append, List.length_take, List.length_drop]
+  omega
+
 /-- non-vacuity of the last part: a plain binary that ends inside a marker -/
 example : Impl.scan geom Impl.fullReads [1, 2, 3, 10, 35, 35, 35, 35, 69, 67] = .notFound := by decide
 
